@@ -70,7 +70,11 @@ def multishot_pass(out, tier):
                      "  if (b%d == 1b) { x(t); } else { z(t); rz(t, %d.5f); }" % (i, i)]
         body += ["  bit r = measure t;"]
         src = "function main() -> void {\n" + "\n".join(body) + "\n}\n"
-        for shots in (2, 3, 7):
+        for shots in (2, 3, 7, -3, -4):      # negative: @shots(|n|) on main AND a different --shots flag (the annotation wins)
+            flag = None
+            if shots < 0:
+                shots = -shots
+                flag = shots + (2 if shots % 2 else -1)
             per = k + 1
             draws = []
             for sidx in range(shots):
@@ -82,7 +86,8 @@ def multishot_pass(out, tier):
             first, last = ref["shots"][0]["qasm"], ref["shots"][-1]["qasm"]
             if first == last:
                 raise vlib.Infra("multi-shot template: first and last shot took the same branches")
-            r = runner.run_cli(["--shots=%d" % shots, "--emit-qasm", "main.bloch"], {"main.bloch": src, "draws.txt": " ".join(repr(d) for d in draws)},
+            cli_src = src if flag is None else "@shots(%d)\n" % shots + src
+            r = runner.run_cli(["--shots=%d" % (flag or shots), "--emit-qasm", "main.bloch"], {"main.bloch": cli_src, "draws.txt": " ".join(repr(d) for d in draws + draws)},
                                env={"BLOCH_VERIF_DRAWS": "draws.txt", "BLOCH_VERIF_GC": "none"})
             n += 1
             filetext = r["files"].get("main.qasm")
